@@ -284,6 +284,15 @@ func (w *c01World) exec(c *c01Case, big []byte) {
 			if bad == "" {
 				class, bad = c01ReplyCheck(in, reply, c.Sender == 0)
 			}
+			if len(in) > 0 && in[0] == portalwire.PING && c.Sender == 0 && c.Prev == nil {
+				// what the peer said about itself is remembered (radius, capabilities, record sequence);
+				// the node's next ping to that peer - the revalidation timer sends one on its own -
+				// is built from it. Nobody answers (the wire is mute): the call must time out, not crash.
+				step = "our next ping to the sender"
+				time.Sleep(time.Millisecond) // virtual: the goroutine that files what the ping said runs first
+				n.p.VerifPing(sender)
+				step = ""
+			}
 			obs = fmt.Sprintf("%d|%d", len(in), len(reply))
 			if len(reply) > 1 {
 				obs = fmt.Sprintf("%x|%x|%d", in[0], reply[:2], len(reply)/64)
